@@ -424,13 +424,18 @@ pub fn run_resp(case: &RespCase) -> RespOut {
                     // `read(n)` — and stays that if the type overrides the method (seed C19-seed9); a case in four
                     // reads through a `&mut` reborrow / `by_ref()` (the blanket impls forward every method)
                     let way = (case.segs.len() + ns.len()) % 4;
-                    let mut extra1 = [0u8; 5];
-                    let mut extra2 = [0u8; 16];
                     for (ri, &n) in ns.iter().enumerate() {
                         let before = pauses(&log);
                         let r = catch_unwind(AssertUnwindSafe(|| {
                             if way == 1 && n > 0 {
-                                let mut slices = [std::io::IoSliceMut::new(&mut buf[..n]), std::io::IoSliceMut::new(&mut extra1), std::io::IoSliceMut::new(&mut extra2)];
+                                // the `n` bytes of room offered as several slices with EMPTY slices before and
+                                // between them: an empty slice is no room at all, not the end of the body (seed
+                                // C01-seed12: a vectored read of a Content-Length body whose list starts with an
+                                // empty slice answered Ok(0)). The provided method fills the first non-empty
+                                // slice: this is `read(n)`, and stays that if the type overrides the method.
+                                let (mut e0, mut e1, mut e2): ([u8; 0], [u8; 0], [u8; 0]) = ([], [], []);
+                                let mut slices = [std::io::IoSliceMut::new(&mut e0), std::io::IoSliceMut::new(&mut e1), std::io::IoSliceMut::new(&mut buf[..n]), std::io::IoSliceMut::new(&mut e2)];
+                                let _ = ri;
                                 resp.read_vectored(&mut slices)
                             } else if way == 2 {
                                 std::io::Read::by_ref(&mut resp).read(&mut buf[..n])
@@ -438,19 +443,6 @@ pub fn run_resp(case: &RespCase) -> RespOut {
                                 resp.read(&mut buf[..n])
                             }
                         }));
-                        // bytes that went into the slices behind the first one were handed out as well
-                        let r = match r {
-                            Ok(Ok(k)) if k > n => {
-                                let mut all = buf[..n].to_vec();
-                                all.extend_from_slice(&extra1[..(k - n).min(5)]);
-                                if k > n + 5 {
-                                    all.extend_from_slice(&extra2[..(k - n - 5).min(16)]);
-                                }
-                                out.events.push(Ev::Ok(all));
-                                continue;
-                            }
-                            r => r,
-                        };
                         if matches!(r, Ok(Ok(_))) && out.ok_read_waited.is_none() && pauses(&log) > before {
                             out.ok_read_waited = Some(ri);
                         }
